@@ -91,7 +91,8 @@ class IntervalGrader(SingleListGrader):
         # Step 1: Provide the default subgrader
         use_config = config if config else kwargs
         if use_config.get('subgrader') is None:
-            use_config['subgrader'] = NumericalGrader(tolerance=1e-13, allow_inf=True)
+            # Work on a copy, so that a dictionary supplied by the author is left alone
+            use_config = dict(use_config, subgrader=NumericalGrader(tolerance=1e-13, allow_inf=True))
 
         # Step 2: Validate the configuration using SingleListGrader routines
         super(IntervalGrader, self).__init__(use_config)
